@@ -1,6 +1,6 @@
 (* C07 - no byte stream from a peer can crash the engine or make it buffer without bound. *)
 From RZ Require Import Base.Prelude Base.Stepper Model.Codec Proofs.CodecProofs Model.Engine
-  Proofs.EngineProofs Model.Actor Proofs.ActorProofs Proofs.EngineSafety.
+  Proofs.EngineProofs Model.Actor Proofs.ActorProofs Proofs.EngineSafety Model.HsTimer Proofs.HsTimerProofs.
 Local Open Scope N_scope.
 
 (* for every configuration and every history of inputs (arbitrary bytes in arbitrary chunks, ticks,
@@ -46,6 +46,20 @@ Proof. exact limit_rejects_above. Qed.
 (* the live decoder itself never panics (no overflowing addition, no out-of-range slice) *)
 Theorem C07_decoder_no_panic : forall m b, dec_buffer m b <> DPanic.
 Proof. exact dec_buffer_no_panic. Qed.
+
+(* handshake deadline (session actor, tokio backend): whatever the peer's pacing - any inter-arrival
+   gaps, one byte just inside each read timeout, silence - the handshake is decided (completed, failed
+   or timed out) no later than HANDSHAKE_IVL after it started, and a timeout fires exactly then *)
+Theorem C07_handshake_deadline : forall D cfg evs g now, now <= D ->
+  decided_at (hs_loop false D cfg g now evs) <= D /\
+  (forall t, hs_loop false D cfg g now evs = HsTimeout t -> t = D).
+Proof. exact deadline_bounds_handshake. Qed.
+(* the per-read timer of the pinned commit was re-armed by every read (repaired by a fix: commit) *)
+Theorem C07_handshake_deadline_legacy_refuted :
+  Forall (fun e => fst e < 300) drip_events /\
+  hs_loop true 300 drip_cfg (e_new 0) 0 drip_events = HsTimeout 2700 /\
+  hs_loop false 300 drip_cfg (e_new 0) 0 drip_events = HsTimeout 300.
+Proof. exact per_read_timer_refuted. Qed.
 
 Example C07_example :
   let cfg := legacy_witness_cfg in
